@@ -172,6 +172,23 @@ impl<T: Qcow2IoOps> Qcow2Dev<T> {
     ) -> Qcow2Result<usize> {
         match mapping.cluster_offset {
             Some(off) => {
+                // A concurrent write may have mapped this cluster already
+                // without having zeroed it yet: what the host file holds
+                // there is stale. Such a cluster reads as zero; wait for a
+                // zeroing in progress (the per-cluster lock is taken from a
+                // clone, so the map's lock is not held while waiting).
+                let new_cls = {
+                    let map = self.new_cluster.read().await;
+                    map.get(&(off >> self.info.cluster_bits())).cloned()
+                };
+                if let Some(cls) = new_cls {
+                    let zeroed = cls.read().await;
+                    if !*zeroed {
+                        zero_buf!(buf);
+                        return Ok(buf.len());
+                    }
+                }
+
                 // the host file may end inside (or before) an allocated
                 // cluster that was only zeroed by hole punching and partly
                 // written: the part beyond the end of file reads as zero
